@@ -15,6 +15,7 @@ import (
 	"sort"
 	"strings"
 	"sync"
+	"sync/atomic"
 	"testing"
 	"time"
 
@@ -71,6 +72,7 @@ func targetPort(client int64) int    { return int(8000 + client%1000) }
 type fastCache struct {
 	*vkit.GateCache
 	lists, ids bool
+	ctr        int64 // ids: the counter hybrid.Incr reads (Get) and writes back (Set) is served atomically from here
 }
 
 func (f *fastCache) isFast(key string) bool {
@@ -81,12 +83,20 @@ func (f *fastCache) isFast(key string) bool {
 }
 
 func (f *fastCache) Get(key string) (any, error) {
+	if f.ids && key == repos.KeyHTTPDomainNextID {
+		// hybrid.Incr = Get, +1, Set. Handing every Get a fresh value makes the pair atomic even
+		// while several tasks run at once (before their first parked operation).
+		return atomic.AddInt64(&f.ctr, 1) - 1, nil
+	}
 	if f.isFast(key) {
 		return f.GateCache.Storage.Get(key)
 	}
 	return f.GateCache.Get(key)
 }
 func (f *fastCache) Set(key string, v any, ttl time.Duration) error {
+	if f.ids && key == repos.KeyHTTPDomainNextID {
+		return nil
+	}
 	if f.isFast(key) {
 		return f.GateCache.Storage.Set(key, v, ttl)
 	}
@@ -135,6 +145,7 @@ func newWorld(c Case) *world {
 		// C14/op-ignores-category/Incr): two nodes mint the same hdm_<n>. Pinned by
 		// TestPerNodeCounter; here node 2's counter is offset so exploration gets past it.
 		w.locals[1].GateCache.Storage.Set(repos.KeyHTTPDomainNextID, int64(1000), 0)
+		w.locals[1].ctr = 1000
 		w.oh = hybrid.NewWithSharedCache(w.ctx, w.locals[0].GateCache.Storage, w.main.GateCache.Storage, nil, hybrid.DefaultConfig())
 	} else {
 		w.main = &fastCache{GateCache: vkit.NewGateCache(w.g, "cache"), lists: c.FastLists, ids: c.AtomicIDs}
@@ -244,12 +255,6 @@ func (m *model) onCreate(name string, client int64, mp *repos.HTTPDomainMapping,
 		m.fail("duplicate-mapping-id", fmt.Sprintf("CreateMapping(%s, client %d) returned id %s, already the id of %s owned by client %d", name, client, mp.ID, old.name, old.owner))
 		return
 	}
-	for _, r := range m.sorted() {
-		if r.name == name && r.ownerDelStart == 0 {
-			m.fail("name-claimed-twice", fmt.Sprintf("CreateMapping(%s, client %d) succeeded (%s) while %s of client %d is live: no delete by its owner has even started", name, client, mp.ID, r.id, r.owner))
-			return
-		}
-	}
 	rec := &mrec{id: mp.ID, name: name, owner: client, createdSeq: m.seq}
 	// a delete by the same client that started while this create was still in flight (the id
 	// was visible through a lookup) counts as the owner's delete
@@ -260,6 +265,14 @@ func (m *model) onCreate(name string, client int64, mp *repos.HTTPDomainMapping,
 			}
 			if e.done > 0 && rec.ownerDelDone == 0 {
 				rec.ownerDelDone = e.done
+			}
+		}
+	}
+	if rec.ownerDelStart == 0 {
+		for _, r := range m.sorted() {
+			if r.name == name && r.ownerDelStart == 0 {
+				m.fail("name-claimed-twice", fmt.Sprintf("CreateMapping(%s, client %d) succeeded (%s) while %s of client %d is live: no delete by its owner has even started", name, client, mp.ID, r.id, r.owner))
+				return
 			}
 		}
 	}
@@ -842,7 +855,7 @@ func genOp(t *rapid.T, l string) Op {
 }
 
 func TestRandomSchedules(t *testing.T) {
-	vkit.Check(t, 12000, 120000, func(t *rapid.T) {
+	vkit.Check(t, 32000, 240000, func(t *rapid.T) {
 		c := Case{FailAt: -1}
 		c.Shared = rapid.Bool().Draw(t, "shared")
 		c.FastLists = rapid.IntRange(0, 2).Draw(t, "fastLists") != 0
